@@ -996,6 +996,9 @@ impl Check for C18 {
         json!({"real": ["VmFunction wrappers (traits.rs)", "call_native / TaskFailure wrapping", "Vm::run_function", "compiler", "VM", "collector"],
                "stub": ["the host: 19 typed natives, 3 re-entering natives, log"]})
     }
+    fn asan_flavour_share(&self) -> bool {
+        true
+    }
     fn required_probes(&self, _tier: Tier) -> Vec<String> {
         vec![
             "probe:conversion_rejected".into(),
